@@ -271,6 +271,13 @@ func c07InodesSpan(comp Compressor, location int64, second uint32) {
 		vp.Assert(t == lnk.inode.getBody().(*basicSymlink).target, "link target as written")
 	}
 	c07CheckInode(fs, small, inodeBasicFile)
+	// the root listing finds every child through the translated block positions in its entries
+	ri, err := fs.getInode(root.inodeLocation.block, root.inodeLocation.offset, inodeBasicDirectory)
+	vp.Assert(err == nil, "root inode readable")
+	if err == nil {
+		fs.rootDir = ri
+		c07CheckTreeDir(fs, ".", root)
+	}
 }
 
 func VP_C07_meta_inodes_span_stored() {
@@ -445,8 +452,10 @@ func c07CheckTreeDir(fs *FileSystem, p string, d *finalizeFileInfo) {
 						vp.Assert(*fl.blockSizes[j] == *c.blocks[j], "block size word")
 					}
 				}
-				vp.Assert(fl.fragmentBlockIndex == c.fragment.block, "fragment block as recorded by the fragment writer")
-				vp.Assert(fl.fragmentOffset == c.fragment.offset, "fragment offset as recorded by the fragment writer")
+				if c.fragment != nil {
+					vp.Assert(fl.fragmentBlockIndex == c.fragment.block, "fragment block as recorded by the fragment writer")
+					vp.Assert(fl.fragmentOffset == c.fragment.offset, "fragment offset as recorded by the fragment writer")
+				}
 			}
 		case fileSymlink:
 			t, err := g.Readlink()
